@@ -68,6 +68,8 @@ class Engine(ExprMixin, StmtMixin, CallMixin, BuiltinMixin, EngineBase):
         self.add_class(ClassDecl("list[?]"))
         self.add_class(ClassDecl("dict[?]"))
         self.add_class(ClassDecl("set[?]"))
+        self.add_class(ClassDecl("counter[?]"))
+        self.lib_models["collections.Counter"] = lambda e, p, a, k, n: [(p, e.new_object(p, "counter[?]", "counter"))]
         self.unsupported: dict[str, str] = {}
         self.lemmas = []
         self.type_aliases = {"optint": TOpt(INT), "optstr": TOpt(STR)}
@@ -195,7 +197,10 @@ class Engine(ExprMixin, StmtMixin, CallMixin, BuiltinMixin, EngineBase):
             matrix = z3.Implies(g, body)
             pats = select_triggers(bound, matrix) if self.auto_triggers else None
             if pats:
-                return [(p, VBool(z3.ForAll(bound, matrix, patterns=pats)))]
+                try:
+                    return [(p, VBool(z3.ForAll(bound, matrix, patterns=pats)))]
+                except z3.Z3Exception:
+                    pass      # e.g. a lambda array inside a candidate trigger: let z3 infer
             return [(p, VBool(z3.ForAll(bound, matrix)))]
         return [(p, VBool(z3.Exists(bound, z3.And(g, body))))]
 
@@ -396,6 +401,8 @@ class Engine(ExprMixin, StmtMixin, CallMixin, BuiltinMixin, EngineBase):
             self.terminal(q, "raise " + r.cls if isinstance(r, Exc) else "return")
             fr2 = Frame(fn, t.mod, fn.owner_cls)
             q.frames.append(fr2)
+            if t.modifies is not None:
+                self.check_target_frame(q, t, "exc" if isinstance(r, Exc) else "ret")
             if isinstance(r, Exc):
                 nexc += 1
                 where = r.where.replace(" ", "")
@@ -433,6 +440,23 @@ class Engine(ExprMixin, StmtMixin, CallMixin, BuiltinMixin, EngineBase):
         for g in t.ghost:
             if (g[0], g[1]) not in fn._ghost_hits:
                 raise Unsupported(f"ghost anchor not found in {t.name}: {g[0]!r} (the code changed shape; the contract must be re-anchored)")
+
+    def check_target_frame(self, q: Path, t: Target, tag):
+        """Frame obligation: a field outside `modifies` keeps its value on every object allocated in the pre-state."""
+        allowed = set(self.expand_modifies(t.modifies))
+        old_heap, old_epoch = q.old_heaps[0]
+        old_alloc = self.alloc_arr(q, old_heap, old_epoch)
+        for key, arrs in list(q.heap.items()):
+            if key in allowed or key == self.ALLOC:
+                continue
+            owner, fname = key
+            ty = self.classes[owner].fields[fname]
+            before = self.heap_arrays(q, key, ty, old_heap, old_epoch)
+            if all(a.eq(b) for a, b in zip(arrs, before)):
+                continue
+            r = z3.Const(fresh_name("fr"), Ref)
+            same = z3.And([z3.Select(a, r) == z3.Select(b, r) for a, b in zip(arrs, before)])
+            self.oblige(q, z3.ForAll([r], z3.Implies(z3.Select(old_alloc, r), same)), "frame", f"{tag}:{owner}.{fname}")
 
     def vacuity_check(self, p: Path, t: Target):
         s = z3.Solver()
@@ -514,7 +538,7 @@ def select_triggers(bound, matrix):
         m = set()
         for a in idx:
             m |= mentions(a)
-        if m:
+        if m and not _has_ite(y):
             apps.setdefault(key, []).append((y, idx, m))
     cands = []
     for key, lst in apps.items():
@@ -542,6 +566,20 @@ def select_triggers(bound, matrix):
             return None
         pats.append(z3.MultiPattern(*chosen) if len(chosen) > 1 else chosen[0])
     return pats
+
+
+def _has_ite(t):
+    st, seen = [t], set()
+    while st:
+        y = st.pop()
+        if y.get_id() in seen:
+            continue
+        seen.add(y.get_id())
+        if z3.is_app(y) and y.decl().kind() == z3.Z3_OP_ITE:
+            return True
+        if not z3.is_quantifier(y):
+            st.extend(y.children())
+    return False
 
 
 def _own_statements(fnode):
